@@ -148,6 +148,12 @@ def ob_memo(w, P):
     r3 = f(y, 1)
     cl.append(('C16', 'calls with different arguments do not share an entry', r3 == y * 10 + 1 and len(calls) == n_before + 1))
     w.clock_fn = saved
+    # keyword arguments, repeated under the free-running clock (a background recomputation may start): every run of the function
+    # for this entry gets the caller's arguments, and every call returns this entry's result
+    n_kw = len(calls)
+    rs = [f(y, b=2) for _ in range(3)]
+    cl.append(('C16', 'repeated calls with a keyword argument return its result', all(r == y * 10 + 2 for r in rs)))
+    cl.append(('C16', 'every run of the function for that entry receives the keyword argument', len(calls) > n_kw and all(c == (y, 2) for c in calls[n_kw:])))
     flag('nontrivial')
     return cl
 
@@ -268,6 +274,52 @@ def ob_memo_aux_keys(w, P):
     flag('nontrivial')
     return cl
 
+def ob_memo_layered(w, P):
+    """memoize applied to a callable that is itself a memoized function (directly, or through an ordinary functools.wraps
+    decorator, as in the landing-page case study): the outer wrapper keeps its own key function -- its keys carry the outer
+    name / typed / ignore settings -- and the two layers never share an entry"""
+    import functools
+    L = w.L
+    cl = []
+    variant = P['variant']
+    calls = []
+
+    def base(a):
+        calls.append(a)
+        return a
+
+    def doubled(f):
+        @functools.wraps(f)
+        def inner(a):
+            return 2 * f(a)
+        return inner
+    if variant == 'django':
+        mc = DjangoLike(w, L)
+        memo = lambda **kw: L.djangocache.DjangoCache.memoize(mc, **kw)
+    elif variant == 'stampede':
+        mc = MemoCache(w, L)
+        L.recipes.random = type('X', (), {'random': staticmethod(lambda: 0.5)})
+        memo = lambda **kw: L.recipes.memoize_stampede(mc, 100, **kw)
+    else:
+        mc = MemoCache(w, L)
+        memo = lambda **kw: L.core.Cache.memoize(mc, **kw)
+    w.clock_fn = lambda: 1000.0
+    x = int(w.int('x', 1, 3))
+    typed = bool(w.bool('outer_typed'))
+    through = bool(w.bool('through_plain_decorator'))
+    inner = memo(name='inner')(base)
+    r0 = inner(x)
+    outer = memo(name='outer', typed=typed)(doubled(inner) if through else inner)
+    r1 = outer(x)
+    want = 2 * x if through else x
+    cl.append(('C16', 'the outer memoized function returns what the function it wraps returns', r0 == x and r1 == want))
+    ki, ko = inner.__cache_key__(x), outer.__cache_key__(x)
+    cl.append(('C16', 'the outer layer builds its keys from its own name and settings', ko[0] == 'outer' and ki[0] == 'inner' and ko != ki and (not typed or ko[-1] is int)))
+    cl.append(('C16', 'a second call is served from the outer entry', outer(x) == want and len(calls) == 1))
+    flag('nontrivial')
+    return cl
+
+
 def jobs(tier):
     out = []
     F = {'cache': ['core.Cache.memoize', 'core.args_to_key'], 'fanout': ['core.Cache.memoize'], 'index': ['persistent.Index.memoize', 'core.Cache.memoize'],
@@ -276,6 +328,8 @@ def jobs(tier):
         out.append(dict(id='memo.%s' % v, func='ob_memo', params=dict(variant=v), tags=['C16'], functions=F[v], weight=5, twin=False))
     for v in ('cache', 'django', 'stampede'):
         out.append(dict(id='memo.names.%s' % v, func='ob_memo_names', params=dict(variant=v), tags=['C16'], functions=['core.full_name'] + F[v], weight=3, twin=False))
+    for v in ('cache', 'django', 'stampede'):
+        out.append(dict(id='memo.layered.%s' % v, func='ob_memo_layered', params=dict(variant=v), tags=['C16'], functions=F[v], weight=3, twin=False))
     out.append(dict(id='memo.stampede.aux_keys', func='ob_memo_aux_keys', params={}, tags=['C16'], functions=F['stampede'], weight=5, twin=False, must_reach=['marker_live']))
     out.append(dict(id='memo.stampede.nothread', func='ob_memo', params=dict(variant='stampede', run_thread=False), tags=['C16'], functions=F['stampede'], weight=5, twin=False))
     return out
